@@ -805,6 +805,28 @@ fn gen_values(g: &mut Sm, n: usize) -> (Vec<f64>, String, bool, bool) {
             for _ in 0..n {
                 vals.push(g.below(distinct) as f64);
             }
+            // a third in random order (runs of one or two), a third sorted (every value arrives
+            // as one long run of consecutive equal inserts), a third as a plateau inside
+            // continuous data that arrives sorted
+            match g.below(3) {
+                0 => {}
+                1 => vals.sort_by(|a, b| a.total_cmp(b)),
+                _ => {
+                    let share = 0.1 + 0.6 * g.f64();
+                    for x in vals.iter_mut() {
+                        if g.f64() >= share {
+                            *x = g.f64() * distinct as f64;
+                        } else {
+                            *x = (distinct / 2) as f64;
+                        }
+                    }
+                    if g.chance(1, 2) {
+                        vals.sort_by(|a, b| a.total_cmp(b));
+                    } else {
+                        vals.sort_by(|a, b| b.total_cmp(a));
+                    }
+                }
+            }
             ("few-distinct-values", false, false)
         }
         11 => {
